@@ -297,6 +297,31 @@ def trange_stub(*a, **k):
     return _R()
 
 
+class _JaxClamped:
+    """1-D array with jax's indexing semantics for integer indices: an out-of-range index is clamped, not an error
+    (numpy object arrays would raise - and a loop that reads past its pre-drawn rolls would look like a harness error)."""
+
+    def __init__(self, arr):
+        self.arr = arr
+
+    def __len__(self):
+        return len(self.arr)
+
+    def __getitem__(self, i):
+        if isinstance(i, (int, np.integer, E.SymInt)):
+            i = int(i)
+            n = len(self.arr)
+            i = i + n if -n <= i < 0 else i
+            return self.arr[min(max(i, 0), n - 1)]
+        return self.arr[i]
+
+    def __iter__(self):
+        return iter(self.arr)
+
+    def __array__(self, dtype=None, copy=None):
+        return np.asarray(self.arr, dtype=dtype) if dtype is not None else np.asarray(self.arr)
+
+
 class JaxRandomShim:
     """jax.random inside a loop module: key handling is opaque, uniform draws are symbolic reals in
     [0,1) (so epsilon-greedy branches fork)."""
@@ -327,7 +352,8 @@ class JaxRandomShim:
         self.draws.append(out)
         if not shape:
             return out[0]
-        return SymArr(np.asarray(out, dtype=object).reshape(shape))
+        arr = SymArr(np.asarray(out, dtype=object).reshape(shape))
+        return _JaxClamped(arr) if len(tuple(shape)) == 1 else arr
 
     def choice(self, key, a, *args, **kw):
         self.k += 1
